@@ -1131,8 +1131,13 @@ func ruleDefaults(c *Check, a *Analysis, rule string, fields ...string) {
 		return
 	}
 	var init *ssa.Function
-	for _, f := range withClosures(gc) {
-		if f != gc && len(p.fieldStoresIn(f, "Transport", "running")) > 0 {
+	// the initialiser: the closure of getConn, or the method handed to once.Do, that sets running
+	for _, f := range p.Fns {
+		if f == gc {
+			continue
+		}
+		isOnce := topParent(f) == gc || len(boundOnceSites(p, f)) > 0
+		if isOnce && len(p.fieldStoresIn(f, "Transport", "running")) > 0 {
 			init = f
 		}
 	}
